@@ -90,14 +90,27 @@ structure K.Inv (k : K) : Prop where
   core : ∀ x ∈ k.cores, CoreOK x
   jn   : k.JOK
 
-theorem K.inv_init : K.init.Inv := by
-  refine ⟨by simp [K.init, K.view, V.ok], by simp [K.init], ?_⟩
-  constructor <;> simp [K.init]
+theorem K.inv_initN (n : Nat) : (K.initN n).Inv := by
+  refine ⟨by simp [K.initN, K.view, V.ok], by simp [K.initN], ?_⟩
+  constructor <;> simp [K.initN]
+
+theorem K.inv_init : K.init.Inv := K.inv_initN 0
+
+/-- the invariant does not look at the producers, `maxsize` or the ghost counter `hputs` -/
+theorem K.Inv.of_eq {k k' : K} (hi : k.Inv) (h1 : k'.items = k.items) (h2 : k'.unfinished = k.unfinished)
+    (h3 : k'.finished = k.finished) (h4 : k'.evWaiters = k.evWaiters) (h5 : k'.cores = k.cores)
+    (h6 : k'.joiners = k.joiners) (h7 : k'.puts = k.puts) (h8 : k'.exits = k.exits) (h9 : k'.takes = k.takes)
+    (h10 : k'.tdCalls = k.tdCalls) (h11 : k'.valueErrors = k.valueErrors) : k'.Inv := by
+  cases k; cases k'
+  simp only at h1 h2 h3 h4 h5 h6 h7 h8 h9 h10 h11
+  subst h1 h2 h3 h4 h5 h6 h7 h8 h9 h10 h11
+  obtain ⟨a, b, c⟩ := hi
+  exact ⟨a, b, ⟨c.fin, c.wait, c.woken, c.fresh, c.bound⟩⟩
 
 /-- one core operation, with the guard under which the shell performs it -/
 inductive KStep : K → K → Prop
   | refl (k : K) : KStep k k
-  | put (k : K) (x : Nat) : KStep k (k.put x)
+  | put (k : K) (x : Nat) : k.full = false → KStep k (k.put x)
   | spawn (k : K) : KStep k k.spawn
   | join (k : K) : KStep k k.join
   | wait (k : K) (c : Nat) (x : Core) : k.cores[c]? = some x → preBlock x.phase = true → KStep k (k.wait c)
@@ -106,6 +119,10 @@ inductive KStep : K → K → Prop
   | exit (k : K) (c : Nat) (x : Core) (e : Exit) : k.cores[c]? = some x → isInBlock x.phase = true → KStep k (k.exit c e)
   | stepJ (k : K) (j : Nat) : KStep k (k.stepJoiner j)
   | handTake (k : K) : KStep k k.handTake
+  | produce (k : K) (x : Nat) : KStep k (k.produce x)
+  | pwait (k : K) (j : Nat) (p : Prod) : k.prods[j]? = some p → prePut p.phase = true → k.full = true → KStep k (k.pwait j)
+  | pput (k : K) (j : Nat) (p : Prod) : k.prods[j]? = some p → prePut p.phase = true → k.full = false → KStep k (k.pput j)
+  | pabort (k : K) (j : Nat) (p : Prod) : k.prods[j]? = some p → prePut p.phase = true → KStep k (k.pabort j)
 
 /-! ### counting and marks -/
 
@@ -405,11 +422,18 @@ theorem K.inv_stepJoiner (k : K) (j : Nat) (hi : k.Inv) : (k.stepJoiner j).Inv :
   have := K.view_stepJoiner k j
   exact ⟨this.1 ▸ hv, this.2 ▸ hc, K.JOK_stepJoiner k j hj⟩
 
+theorem K.inv_pput (k : K) (j : Nat) (hi : k.Inv) : (k.pput j).Inv := by
+  unfold K.pput
+  split
+  · exact hi
+  · rename_i p _
+    exact (K.inv_put k p.item hi).of_eq rfl rfl rfl rfl rfl rfl rfl rfl rfl rfl rfl
+
 /-- every core operation, performed under its guard, preserves the invariant -/
 theorem KStep.inv {k k' : K} (h : KStep k k') (hi : k.Inv) : k'.Inv := by
   cases h with
   | refl => exact hi
-  | put x => exact K.inv_put k x hi
+  | put x _ => exact K.inv_put k x hi
   | spawn => exact K.inv_spawn k hi
   | join => exact K.inv_join k hi
   | wait c x h hx => exact K.inv_wait k c x h hx hi
@@ -418,5 +442,9 @@ theorem KStep.inv {k k' : K} (h : KStep k k') (hi : k.Inv) : k'.Inv := by
   | exit c x e h hx => exact K.inv_exit k c x e h hx hi
   | stepJ j => exact K.inv_stepJoiner k j hi
   | handTake => exact K.inv_handTake k hi
+  | produce x => exact hi.of_eq rfl rfl rfl rfl rfl rfl rfl rfl rfl rfl rfl
+  | pwait j p _ _ _ => exact hi.of_eq rfl rfl rfl rfl rfl rfl rfl rfl rfl rfl rfl
+  | pput j p _ _ _ => exact K.inv_pput k j hi
+  | pabort j p _ _ => exact hi.of_eq rfl rfl rfl rfl rfl rfl rfl rfl rfl rfl rfl
 
 end Taskpool.QueueM
